@@ -136,6 +136,29 @@ claim("C20", "exploration",
       "history and final memory image", "DESIGN.md 4 C20")
 
 
+claim("C08", "exploration",
+      "Generated hierarchies biased to connections (whole signals, slices, slices of slices, bits, struct fields, "
+      "constants, through ports over up to three levels, chains whose writer is a slice/field of an earlier net's "
+      "reader) are elaborated under 5 orderings each (seeded permutation of all statements per component, swapped "
+      "connect sides, duplicated signal-signal connects, seeded object-hash order). For every ordering "
+      "get_all_value_nets() must equal, as name sets with writers, the connected components and unique roots computed "
+      "by an independent union-find over the spec's connect statements; under two schedulers every signal equals the "
+      "integer reference evaluator (every net member carries its writer's value).",
+      "Duplicating a constant connect creates a second constant driver and is legitimately rejected, so only "
+      "signal-signal connects are duplicated.",
+      "seeded order/fault search over elaboration + deterministic simulation, union-find and reference-model oracles",
+      "DESIGN.md 4 C08")
+claim("C14", "exploration",
+      "After every elaboration of generated hierarchies (nested component lists, port/wire lists, struct signals with "
+      "nested struct and list fields, slices, bits) under 4 orderings incl. a seeded order in which slice/field "
+      "signals are first touched: every object (incl. lazily created field and slice signals) has a unique repr, "
+      "eval(repr(o), {'s': top}) is o, parent/host/level/top-level-signal metadata agree with the name, a slice of a "
+      "slice is the very object naming the composed bit range, and the name set is the same for all orderings.",
+      "The program dimension is plain generation; the part this technique adds is the order dimension (statement "
+      "order, hash order, lazy-creation order).",
+      "seeded order search over elaboration, step invariant on the name space", "DESIGN.md 4 C14")
+
+
 def main():
   props = [json.loads(l)["id"] for l in open(os.path.join(VERIF, "properties.jsonl"))]
   checks = []
